@@ -10,6 +10,7 @@ use std::sync::Arc;
 use varpro::prelude::*;
 
 /// wrapper model whose rows are scaled by fixed factors and/or replaced (C06 twins)
+#[derive(Clone)]
 pub struct RowModel<T: Sc> {
     pub inner: AnyModel<T>,
     pub scale: Option<Vec<T>>,
@@ -182,6 +183,20 @@ pub fn emit_twin_case_f<T: Sc>(
             emit_outputs(out, &t.prefix, t.prob.as_ref());
         }
     }
+    // epilogue (clonable = hand-written models): a CLONE of the problem is moved to the initial parameters
+    // and queried, Jacobian included; the original, queried again afterwards WITHOUT any update, must
+    // answer exactly as before - copies of a problem are independent objects (round 12)
+    if let Some(mut cl) = prob.try_clone() {
+        let iv = DVector::from_vec(c.init.clone());
+        let _ = guarded(|| {
+            cl.set(&iv);
+            let mut o2 = Out::new();
+            emit_outputs(&mut o2, "x", cl.as_ref());
+        });
+        emit_outputs(out, "twinAfterClone", prob.as_ref());
+    } else if std::env::var("VP_DEBUG").is_ok() {
+        eprintln!("no clone: built={} origin={}", c.built, c.origin);
+    }
     out.end();
 }
 
@@ -344,7 +359,7 @@ fn one_wtwin<T: Sc>(out: &mut Out, rng: &mut Rng, thorough: bool, i: usize) {
         None
     };
     let primary_model = if fail_eval.is_some() {
-        AnyModel::Dyn(Box::new(RowModel {
+        AnyModel::Row(Box::new(RowModel {
             inner: any_model(&c.recipe, &c.init, c.built),
             scale: None,
             overwrite: vec![],
@@ -363,7 +378,7 @@ fn one_wtwin<T: Sc>(out: &mut Out, rng: &mut Rng, thorough: bool, i: usize) {
     let mut twins: Vec<Twin<T>> = Vec::new();
     // W: rows of model, derivatives and data scaled, no weights
     {
-        let m = AnyModel::Dyn(Box::new(RowModel {
+        let m = AnyModel::Row(Box::new(RowModel {
             inner: any_model(&c.recipe, &c.init, c.built),
             scale: Some(w.clone()),
             overwrite: vec![],
@@ -391,7 +406,7 @@ fn one_wtwin<T: Sc>(out: &mut Out, rng: &mut Rng, thorough: bool, i: usize) {
     // Z: samples with weight zero carry different data and different model rows
     let zeros: Vec<usize> = (0..n).filter(|r| w[*r] == T::of(0.0)).collect();
     if !zeros.is_empty() {
-        let m = AnyModel::Dyn(Box::new(RowModel {
+        let m = AnyModel::Row(Box::new(RowModel {
             inner: any_model(&c.recipe, &c.init, c.built),
             scale: None,
             overwrite: zeros.iter().map(|r| (*r, T::of(3.25 + *r as f64))).collect(),
@@ -605,7 +620,7 @@ fn one_par<T: Sc>(out: &mut Out, rng: &mut Rng, thorough: bool, i: usize, thread
         if fail.is_none() && fail_eval.is_none() && huge.is_none() {
             return wrap_any(any_model(&c.recipe, &c.init, c.built));
         }
-        wrap_any(AnyModel::Dyn(Box::new(RowModel {
+        wrap_any(AnyModel::Row(Box::new(RowModel {
             inner: any_model(&c.recipe, &c.init, c.built),
             scale: huge.map(|h| vec![T::of(h); n_rows]),
             overwrite: vec![],
